@@ -86,6 +86,10 @@ def cfStep (toks : List String) : String :=
   let (reps, call) := match toks with
     | "rep" :: n :: rest => (n.toNat?.getD 1, rest)
     | _ => (1, toks)
+  -- bytes behind the end of the string are not part of it: the model does not see them
+  let call := match call with
+    | "stale" :: _ :: rest => rest
+    | _ => call
   let (pre, call) := match call with
     | "pre" :: n :: rest => (n.toNat?.getD 0, rest)
     | _ => (0, call)
